@@ -38,13 +38,15 @@ def setup():
     try:
         vlib.inject_kani(r)
         import subprocess
-        for pkg, extra in (("mina_core", []), ("mina", ["--tests"])):
-            cmd = ["cargo", "kani", "-p", pkg, "--target-dir", vlib.KANI_TARGET, "-Z", "function-contracts", "-Z", "stubbing",
-                   "-Z", "unstable-options", "--only-codegen"] + extra
-            p = subprocess.run(cmd, cwd=r, env=vlib.kani_env(), stdout=subprocess.PIPE, stderr=subprocess.STDOUT, text=True)
-            if p.returncode != 0:
-                log(vlib.tail_errors(p.stdout))
-                log("setup: cargo kani --only-codegen -p %s failed (rc=%d)" % (pkg, p.returncode))
+        # warm the dependency caches by running one cheap harness per package (compiling ALL harnesses at once is
+        # not possible: the prepare_frame group needs the scratch variant without get_position's contract)
+        for pkg, tests, h in (("mina_core", False, "time_scale::verif_time_scale::ts_accessors_return_configuration"),
+                              ("mina", True, "shape1::start_with_contract")):
+            out = vlib.run_kani(r, pkg, [h], timeout_s=600, jobs=1, tests=tests, extra=["--no-assert-contracts"])
+            res = out["results"].get(h)
+            if not res or res["status"] != "Success":
+                log(out["stdout"][-3000:])
+                log("setup: warm-up harness %s did not verify" % h)
                 return 1
         import verus_engine
         verus_engine.warm()
@@ -55,11 +57,11 @@ def setup():
             return 1
         import extract_bevy
         cdir, _ = extract_bevy.write_crate(d)
-        p = subprocess.run(["cargo", "kani", "--target-dir", vlib.KANI_TARGET + "-bevy", "-Z", "stubbing", "-Z", "unstable-options", "--only-codegen"],
-                           cwd=cdir, env=vlib.kani_env(), stdout=subprocess.PIPE, stderr=subprocess.STDOUT, text=True)
-        if p.returncode != 0:
-            log(vlib.tail_errors(p.stdout))
-            log("setup: cargo kani --only-codegen on the bevy extract failed")
+        out = vlib.run_kani(cdir, None, ["verif::animator_api_contract"], timeout_s=600, jobs=1)
+        res = out["results"].get("verif::animator_api_contract")
+        if not res or res["status"] != "Success":
+            log(out["stdout"][-3000:])
+            log("setup: warm-up harness on the bevy extract did not verify")
             return 1
     except Undecided as e:
         log("setup failed: %s" % e)
